@@ -77,6 +77,8 @@ def build(with_extended=False, with_checksig=False):
     t += cast_to_bool() + check_minimal_push()
     if with_extended:
         ext = step_extended()
+        # R-OPCALL: CBMC's C++ front end does not resolve an overloaded binary operator% on class operands; spell the call
+        ext = rewrite(ext, [(r'num1 = num1 % num2;', 'num1 = num1.operator%(num2);', 1)])
         t += between('debugger/interpreter.cpp', r'^#define stacktop\(i\)', r'^bool StepExtended', include_end=False).replace('#define stacktop', '#undef stacktop\n#undef altstacktop\n#define stacktop', 1)
         t += ext
     else:
